@@ -290,6 +290,74 @@ def r_reserve_exact_count(F, R, cat=None):
     R.floor("R-RESERVE-ITEMS", "reserve_items bodies that reserve directly", n, 6)
 
 
+TRUNCATING = {"map_while", "take_while", "take", "skip", "skip_while", "step_by", "nth", "last", "find",
+              "find_map", "peekable_next_if", "next_if", "scan"}
+
+
+def r_reserve_no_truncation(F, R, cat=None):
+    """what reserve_items / reserve_regions hand on to their children is derived from *all*
+    announced items: no truncating or skipping adaptor (map_while, take_while, take, skip, step_by,
+    ...) on a path from the `items` parameter.  `filter_map`/`flat_map`/`map`/`clone`/`chain`
+    keep every relevant element; an adaptor of the listed kind announces fewer items than will
+    be pushed, so the children are under-sized and reallocate."""
+    from core import all_ctxs
+    n = 0
+    for b in list(F.methods_of_trait("ReserveItems", "reserve_items")) + list(F.methods_of_trait("Region", "reserve_regions")):
+        if b.in_tests():
+            continue
+        n += 1
+        for ctx in all_ctxs(F, b):
+            for (bi, t) in ctx.body.calls():
+                tag = callee_tag(t.get("callee"))
+                if tag[1] not in TRUNCATING or tag[0] not in ("Iterator", "Peekable"):
+                    continue
+                from_items = False
+                for a in t["args"][:1]:
+                    if a["k"] == "const":
+                        continue
+                    for o in ctx.org.operand(a):
+                        for (c2, (r, p)) in base_places(ctx, o):
+                            if c2.body is b and r == ("arg", 2):
+                                from_items = True
+                if not from_items:
+                    continue
+                R.saw(b)
+                R.check("R-RESERVE-ITEMS", b.label(), False, construct="announced items pass through Iterator::%s" % tag[1],
+                        where="%s:%s" % (ctx.body.file, t["line"]),
+                        detail="a truncating/skipping adaptor on the announced items: fewer items are announced "
+                               "to the child storage than the matching pushes will store")
+    R.floor("R-RESERVE-ITEMS", "reserve_items / reserve_regions bodies scanned for truncating adaptors", n, 10)
+
+
+def r_reserve_hint_lower(F, R, cat=None):
+    """a reservation made from an iterator's size_hint uses the lower bound: the upper bound of
+    `filter`/`take_while`-like iterators exceeds what they yield, and reserving it on an exact-fit
+    storage reallocates although the announced contents fit"""
+    from core import all_ctxs
+    cat = cat or Catalogue(F)
+    n = 0
+    for top in F.bodies.values():
+        if top.in_tests() or top.derived or top.kind == "Closure":
+            continue
+        for ctx in all_ctxs(F, top):
+            for (bi, t) in ctx.body.calls():
+                if classify(t.get("callee")) != "reserve" or len(t["args"]) < 2:
+                    continue
+                amount = trees(ctx, ctx.org.operand(t["args"][1]))
+                hints = [nd for nd in walk(amount) if nd[0] == "call" and nd[1][1] == "size_hint"]
+                if not hints:
+                    continue
+                n += 1
+                R.saw(top)
+                upper = [nd for nd in hints if any(str(x) == "f:1" for x in nd[3])]
+                R.check("R-RESERVE-ITEMS", top.label(), not upper, construct="reserve from size_hint uses the lower bound",
+                        where="%s:%s" % (ctx.body.file, t["line"]),
+                        detail="amount %s" % show(amount)[:100] + ("" if not upper else
+                               ": the upper bound may exceed what the iterator yields; reserving it reallocates an "
+                               "exact-fit storage although the announced contents fit"))
+    R.info("R-RESERVE-ITEMS: %d reservations taken from size_hint" % n)
+
+
 def r_reserve_items_agree(F, R, cat=None):
     cat = cat or Catalogue(F)
     n = 0
